@@ -45,11 +45,6 @@ def sig(prop):
         sc = rj["trace"][0]["sc"]
         ev = rj["event"]
         lim = sc["limit"]
-        if (prop == "C09" and lim > 0 and sc["side"] == "client" and ev.get("ev") == "done"
-                and (ev.get("code") in (3, 8) or (sc["shape"] == "unary" and ev.get("code") == 2))
-                and all(fr["len"] <= lim and fr["ilen"] <= lim for fr in sc["frames"] if fr["flag"] in (0, 1))
-                and any(fr["len"] > lim or fr["ilen"] > lim for fr in sc["frames"] if fr["flag"] not in (0, 1))):
-            return "C09|terminator-frame>N|client/%s" % sc["proto"]
         bodies = ".".join("%s%s" % (fr["body"], "c" if fr["flag"] % 2 else "") for fr in sc["frames"])
         partial = "cut" if sc["cut"] <= wirelen(sc) else "full"
         got = ""
